@@ -7,7 +7,7 @@
 use nom::{
     branch::alt,
     bytes::streaming::{tag, tag_no_case},
-    combinator::map,
+    combinator::{map, map_res},
     multi::separated_list0,
     sequence::tuple,
     IResult,
@@ -124,8 +124,8 @@ fn entry_name(i: &[u8]) -> IResult<&[u8], &[u8]> {
     Ok(astring_res)
 }
 
-fn slice_to_str(i: &[u8]) -> &str {
-    std::str::from_utf8(i).unwrap()
+fn slice_to_str(i: &[u8]) -> Result<&str, std::str::Utf8Error> {
+    std::str::from_utf8(i)
 }
 
 fn nil_value(i: &[u8]) -> IResult<&[u8], Option<String>> {
@@ -133,15 +133,15 @@ fn nil_value(i: &[u8]) -> IResult<&[u8], Option<String>> {
 }
 
 fn string_value(i: &[u8]) -> IResult<&[u8], Option<String>> {
-    map(alt((quoted, literal)), |s| {
-        Some(slice_to_str(s).to_string())
+    map_res(alt((quoted, literal)), |s| {
+        slice_to_str(s).map(|s| Some(s.to_string()))
     })(i)
 }
 
 fn keyval_list(i: &[u8]) -> IResult<&[u8], Vec<Metadata>> {
     parenthesized_nonempty_list(map(
         tuple((
-            map(entry_name, slice_to_str),
+            map_res(entry_name, slice_to_str),
             tag(" "),
             alt((nil_value, string_value)),
         )),
@@ -153,7 +153,10 @@ fn keyval_list(i: &[u8]) -> IResult<&[u8], Vec<Metadata>> {
 }
 
 fn entry_list(i: &[u8]) -> IResult<&[u8], Vec<Cow<str>>> {
-    separated_list0(tag(" "), map(map(entry_name, slice_to_str), Cow::Borrowed))(i)
+    separated_list0(
+        tag(" "),
+        map(map_res(entry_name, slice_to_str), Cow::Borrowed),
+    )(i)
 }
 
 fn metadata_common(i: &[u8]) -> IResult<&[u8], &str> {
